@@ -130,7 +130,7 @@ proof! {
 }
 proof! {
     #[kani::unwind(8)]
-    fn c16_t_update_step_wide() { update_step(4, 3) }
+    fn c16_t_update_step_wide() { update_step(4, 2) }
 }
 
 fn is_max(d: Decimal) -> bool {
